@@ -3,14 +3,15 @@ set -e
 . $MC/par.sh
 H=$VERIF/harness/c06
 SAN="-fsanitize=address -fno-omit-frame-pointer"
+DEF="-DPF_CAPN=262144" # the long sub-checks produce up to 140000 characters per call
 # the engine itself, ASan-instrumented (print_i's 23-byte digit buffer is a stack object)
 par clang -c -O1 -g $SAN -fno-finite-loops -I$REPO $REPO/igris/util/printf_impl.c -o $BUILD/printf_impl.o
 # the libc entry points built on it: compiled against the host headers, public names renamed to igc_*
 par clang -c -O1 -g $SAN -fno-builtin -Wno-implicit-function-declaration -I$REPO $REPO/compat/libc/stdio/sprintf.c -o $BUILD/sprintf.o
 par clang -c -O1 -g $SAN -fno-builtin -Wno-implicit-function-declaration -I$REPO $REPO/compat/libc/stdio/fdprintf.c -o $BUILD/fdprintf.o
 # harness: the oracle TU, and the typed-call thunks (about 3000 tiny instantiations: -O0, no instrumentation)
-par clang++ -std=c++17 -c -O1 -g -I$REPO -I$MC -I$H $H/c06_printf.cpp -o $BUILD/h.o
-par clang++ -std=c++17 -c -O0 -I$REPO -I$MC -I$H $H/c06_dispatch.cpp -o $BUILD/d.o
+par clang++ -std=c++17 -c -O1 -g $DEF -I$REPO -I$MC -I$H $H/c06_printf.cpp -o $BUILD/h.o
+par clang++ -std=c++17 -c -O0 $DEF -I$REPO -I$MC -I$H $H/c06_dispatch.cpp -o $BUILD/d.o
 par clang++ -std=c++17 -O2 -c -I$MC $MC/mc.cpp -o $BUILD/mc.o
 parwait
 objcopy --redefine-sym sprintf=igc_sprintf --redefine-sym vsprintf=igc_vsprintf --redefine-sym snprintf=igc_snprintf $BUILD/sprintf.o
